@@ -13,15 +13,6 @@ Open Scope N_scope.
 Lemma no_lf_bool : forall s, PyVM.no_lf s = true -> IntFacts.no_lf s.
 Proof. intros s H. exact H. Qed.
 
-Lemma push_unicode_text_leaf : forall cfg e u, IntFacts.no_lf e -> pydecode_raw_unicode_escape e = Ok u ->
-  pushes_leaf cfg (x56 :: e ++ [x0a]) (TStr u).
-Proof.
-  intros cfg e u Hn Hp i st rest. cbn [app]. rewrite <- app_assoc. cbn [app].
-  eexists; eexists; eexists. split.
-  - eapply exec_one; [reflexivity|reflexivity|]. cbn [handler run]. rewrite (split_line_exact _ rest Hn), Hp. reflexivity.
-  - repeat split; try reflexivity; cbn; lia.
-Qed.
-
 Lemma push_persid_leaf : forall pd su t, IntFacts.no_lf t ->
   pushes_leaf (Build_dconfig pd su None) (x50 :: t ++ [x0a]) (TRef (TStr t)).
 Proof.
